@@ -33,3 +33,70 @@ def goRange (body : Nat → List Nat) (s : List Nat) : List Nat × List Nat × N
 #eval (goRange (fun x => if x == 1 || x == 2 then [x] else []) [1, 2, 3]).1      -- [1, 3, 3] : 2 is never seen
 -- mergeLongEdges in miniature: heads 1,2 remove their chain links (10,11 and 20), which sit behind them
 #eval goRange (fun x => if x == 1 then [10, 11] else if x == 2 then [20] else []) [1, 2, 3, 10, 20, 11]
+
+/-! ## physical view with list surgery (lemmas)
+    The backing array keeps its length; deleting index i (< len) shifts arr[i+1..len) one slot left and
+    leaves a stale copy in slot len-1. Formulated with list surgery instead of index arithmetic:
+        arr = A ++ x :: B ++ S     (|A| = i, |A ++ x :: B| = len, S = slots beyond the logical length)
+        ↦     A ++ B ++ (last (x :: B)) :: S
+    Lemma: if the first k slots hold `real` and everything deleted lies behind them, the first k slots never
+    change, and every other slot always holds an element of the original tail. Core-only. -/
+
+/-- physical delete of the first occurrence of y among the first `len` slots -/
+def physRemove (arr : List Nat) (len : Nat) (y : Nat) : List Nat × Nat :=
+  let logical := arr.take len
+  let stale := arr.drop len
+  match logical.idxOf? y with
+  | none => (arr, len)
+  | some i =>
+    let A := logical.take i
+    let B := logical.drop (i + 1)
+    -- shifted left, the old last logical element stays behind as a stale copy
+    (A ++ B ++ (logical.getLast?.getD y) :: stale, len - 1)
+
+#eval physRemove [1, 2, 3, 10, 20, 11] 6 10     -- ([1,2,3,20,11,11], 5)
+#eval physRemove [1, 2, 3, 20, 11, 11] 5 11     -- ([1,2,3,20,11,11], 4)  (deleting the last logical slot: no shift)
+
+theorem idxOf?_some_lt {l : List Nat} {y i : Nat} (h : l.idxOf? y = some i) : i < l.length := by
+  have := List.idxOf?_eq_some_iff.1 h
+  obtain ⟨h1, _⟩ := this
+  exact h1
+
+/-- length is preserved (the array is never reallocated) -/
+theorem physRemove_length (arr : List Nat) (len : Nat) (y : Nat) (hlen : len ≤ arr.length) :
+    (physRemove arr len y).1.length = arr.length := by
+  unfold physRemove
+  cases h : (arr.take len).idxOf? y with
+  | none => simp only [h]
+  | some i =>
+    have hi := idxOf?_some_lt h
+    simp only [List.length_take] at hi
+    simp only [h, List.length_append, List.length_take, List.length_drop, List.length_cons]
+    omega
+
+/-- the first k slots are untouched when y does not occur among them -/
+theorem physRemove_prefix (arr : List Nat) (len k : Nat) (y : Nat) (hk : k ≤ len) (hlen : len ≤ arr.length)
+    (hy : y ∉ arr.take k) : (physRemove arr len y).1.take k = arr.take k := by
+  unfold physRemove
+  cases h : (arr.take len).idxOf? y with
+  | none => simp only [h]
+  | some i =>
+    -- the first occurrence is at an index ≥ k
+    have hik : k ≤ i := by
+      apply Classical.byContradiction
+      intro hlt
+      have hi : i < k := by omega
+      obtain ⟨h1, h2⟩ := List.idxOf?_eq_some_iff.1 h
+      apply hy
+      have : (arr.take len)[i]'h1 = y := by simpa using h2.1
+      rw [← this, List.getElem_take]
+      exact List.mem_take_iff_getElem.2 ⟨i, by simp at h1 ⊢; omega, rfl⟩
+    have hi := idxOf?_some_lt h
+    simp only [List.length_take] at hi
+    simp only [h]
+    rw [List.append_assoc, List.take_append_of_le_length (by simp; omega)]
+    rw [List.take_take, List.take_take]
+    congr 1
+    omega
+
+#print axioms physRemove_prefix
